@@ -200,7 +200,8 @@ def run_est(kind, df, meta, gen, stab, rx, fS=None, fA=None, fQ=None):
                     res['spread'] = max(res['spread'], sp)
                 if rx:
                     d, n, w = spy.calls[-1]
-                    res['pa'], sp = table(d, K, allm, ns)
+                    Kd = K if len(d) == len(K) else K[smp]     # the treatment model may be fitted on the sample only
+                    res['pa'], sp = table(d, Kd, np.ones(len(Kd), dtype=bool), ns)
                     res['spread'] = max(res['spread'], sp)
                     if stab:
                         res['nA'], sp = const(n)
